@@ -240,6 +240,84 @@ theorem schedule_step_count (cfg : Cfg) (total : Nat) {s s' : Run α × List (Pa
 
 def bytes (n : Nat) : List Nat := List.replicate n 7
 
+/-! ## `mpu_write` seeds its bags exactly as the merge-tree evaluation numbers its partitions -/
+
+theorem genBunch_eq (cfg : Cfg) (total off n : Nat) (last : Bool)
+    (hlast : last = true → off + n = total) (hnot : last = false → off + n < total ∨ cfg.markFinal = false ∨ n = 0) :
+    genBunch (cfg.base off) n cfg.wpc (cfg.markFinal && last) cfg.lhsKeep
+      = (List.range n).map fun p => cfg.seed total (off + p) := by
+  simp only [genBunch, Cfg.seed, Cfg.base]
+  apply List.map_congr_left
+  intro p hp
+  have hp' : p < n := List.mem_range.mp hp
+  have e1 : cfg.minPart + 1 + off * cfg.wpc + p * cfg.wpc = cfg.minPart + 1 + (off + p) * cfg.wpc := by
+    rw [Nat.add_mul]; omega
+  rw [e1]
+  congr 1
+  cases last with
+  | true =>
+    have := hlast rfl
+    have : (p + 1 = n) ↔ (off + p + 1 = total) := by omega
+    simp [this]
+  | false =>
+    rcases hnot rfl with h | h | h
+    · have : ¬ (off + p + 1 = total) := by omega
+      simp [this]
+    · simp [h]
+    · omega
+
+/-- **Seeding.**  For every list of bags with at least one partition each, the sections `mpu_write` creates
+(`gen_bunch` per bag, running part counter, final flag on the last partition of the last bag only, one `lhs_keep` for
+all) are, read in stream order, exactly the seeds `eval` uses for global partition indices `0 … total-1`.  Hence
+`main` / `schedule_result`, stated over global indices, speak about what `mpu_write` builds from several bags. -/
+theorem mpu_write_seeds_global (cfg : Cfg) (nparts : List Nat) (hpos : ∀ n ∈ nparts, 0 < n) :
+    (mpuWriteSeeds cfg nparts).flatten = (List.range nparts.sum).map (cfg.seed nparts.sum) := by
+  suffices h : ∀ (total off : Nat) (ns : List Nat), (∀ n ∈ ns, 0 < n) → off + ns.sum = total →
+      (mpuWriteSeedsFrom cfg (cfg.base off) ns).flatten = (List.range ns.sum).map fun p => cfg.seed total (off + p) by
+    have := h nparts.sum 0 nparts hpos (by simp)
+    simpa [mpuWriteSeeds, Cfg.base] using this
+  intro total off ns
+  induction ns generalizing off with
+  | nil => intro _ _; simp [mpuWriteSeedsFrom]
+  | cons n rest ih =>
+    intro hp hsum
+    have hn : 0 < n := hp n (by simp)
+    have hrest : ∀ m ∈ rest, 0 < m := fun m hm => hp m (by simp [hm])
+    simp only [List.sum_cons] at hsum
+    have hb : cfg.base off + n * cfg.wpc = cfg.base (off + n) := by
+      simp only [Cfg.base, Nat.add_mul]; omega
+    simp only [mpuWriteSeedsFrom, List.flatten_cons, List.sum_cons, hb]
+    rw [ih (off + n) hrest (by omega)]
+    rw [genBunch_eq cfg total off n rest.isEmpty]
+    · rw [List.range_add, List.map_append, List.map_map]
+      congr 1
+      apply List.map_congr_left
+      intro p _
+      simp [Nat.add_assoc]
+    · intro he
+      have : rest = [] := by simpa using he
+      subst this; simp at hsum; omega
+    · intro he
+      left
+      cases rest with
+      | nil => simp at he
+      | cons m ms =>
+        have := hrest m (by simp)
+        simp only [List.sum_cons] at hsum
+        omega
+
+/-- ids handed to different partitions never collide and stay in stream order: partition `i` owns
+`[base i, base i + wpc)` -/
+theorem seed_ranges_disjoint (cfg : Cfg) (i j : Nat) (h : i < j) : cfg.base i + cfg.wpc ≤ cfg.base j := by
+  simp only [Cfg.base]
+  have : (i + 1) * cfg.wpc ≤ j * cfg.wpc := Nat.mul_le_mul_right _ h
+  rw [Nat.add_mul] at this
+  omega
+
+example : mpuWriteSeeds ⟨some ⟨10, 3, 100⟩, 0, 2, true⟩ [2, 1, 3]
+    = [[⟨4, 2, false, 10⟩, ⟨6, 2, false, 10⟩], [⟨8, 2, false, 10⟩],
+       [⟨10, 2, false, 10⟩, ⟨12, 2, false, 10⟩, ⟨14, 2, true, 10⟩]] := by decide
+
 /-- F7 as found: final partition with two 30-byte chunks, `spill_sz = 20`, `min_write_sz = 10`,
 one write credit: the credit is spent after the first chunk and the final flush fails. -/
 theorem cex_final_two_chunks_as_found :
